@@ -786,3 +786,32 @@ RECIPES += [
      '    rbmodes = np.tile(np.eye(6), (r, 1))\n    skew = np.zeros((r, 3, 3))\n    for (i, j), (col, sign) in {\n        (0, 1): (2, 1), (0, 2): (1, -1), (1, 0): (2, -1),\n        (1, 2): (0, 1), (2, 0): (1, 1), (2, 1): (0, -1),\n    }.items():\n        skew[:, i, j] = grids[:, col] if sign > 0 else -grids[:, col]\n    rbmodes.reshape(r, 6, 6)[:, :3, 3:] = skew\n    return rbmodes\n',
      'rbgeom: tiled identity, skew part filled from a table of (row, column) -> (coordinate, sign) (own refactoring)'),
 ]
+
+# ---------------------------------------------------------------------------------------------------- pass 3: siblings
+CYL_INV = "                theta = math.atan2(g[1], g[0])\n                result.append(np.array([R, theta * 180 / math.pi, g[2]]))"
+RECIPES += [
+    ("C14", "neutral", [], N, CYL_INV, CYL_INV.replace("math.atan2(g[1], g[0])", "math.atan2(g[1] / R, g[0] / R)"),
+     "getcoordinates: cylindrical azimuth from the point normalised by its radius"),
+    ("C14", "break", ["C14-R1"], N, CYL_INV, CYL_INV.replace("math.atan2(g[1], g[0])", "math.atan2(-g[1] / R, -g[0] / R)"),
+     "getcoordinates: cylindrical azimuth of the opposite point"),
+    ("C14", "neutral", [], N, SPH_INV,
+     "                rho = np.where(abs(s) > abs(c), g[1], g[0]) / np.where(abs(s) > abs(c), s, c)\n                theta = math.atan2(rho, g[2])\n",
+     "getcoordinates: numerator and divisor of the in-plane radius selected with np.where"),
+    # (the same with `<`, i.e. the smaller divisor selected, is exit 2: the thrown-away values are not quotients, see c14_geo._divisor_guard)
+    ("C14", "neutral", [], N, SPH_INV, "                theta = math.atan2(np.where(abs(s) > abs(c), g[1] / s, g[0] / c), g[2])\n",
+     "getcoordinates: both quotients computed, the one with the larger divisor kept by np.where"),
+    ("C14", "break", ["C14-R1"], N, SPH_INV, "                theta = math.atan2(np.where(abs(s) < abs(c), g[1] / s, g[0] / c), g[2])\n",
+     "getcoordinates: both quotients computed, the one with the smaller divisor kept by np.where"),
+    ("C14", "neutral", [], N, SPH_INV,
+     "                by_s, by_c = g[1] / s, g[0] / c\n                theta = math.atan2(np.where(abs(s) > abs(c), by_s, by_c), g[2])\n",
+     "getcoordinates: both quotients computed into locals, one kept by np.where"),
+    # (both polar angles computed and one kept - np.where(test, atan2(g[1] / s, g[2]), atan2(g[0] / c, g[2])) - is exit 2: a thrown-away value
+    # that is not itself a quotient may hide one)
+    ("C14", "break", ["C14-R3"], N, "    elif np.any(refpoint != [0, 0, 0]):", "    elif np.all(np.asarray(refpoint) != 0):",
+     "rbgeom: shift applied only when no coordinate of the reference point is zero (round-3 seed G)"),
+    ("C14", "break", ["C14-R3"], N, "    elif np.any(refpoint != [0, 0, 0]):", "    elif np.sum(refpoint) != 0:",
+     "rbgeom: shift skipped when the coordinates of the reference point sum to zero"),
+    ("C14", "neutral", [], N, "    elif np.any(refpoint != [0, 0, 0]):", "    elif np.count_nonzero(refpoint):", "rbgeom: zero test with count_nonzero"),
+    ("C14", "break", ["C14-R1"], N, SPH_INV, "                theta = math.atan2(g[0] / c, g[2])\n",
+     "getcoordinates: in-plane radius always from x / cos(phi) (round-3 seed H)"),
+]
